@@ -545,6 +545,7 @@ func runC01Rest(c *Ctx) {
 	c.withOnly("R3", "R22", func() { runC18(c) })
 	checkMaxTxPacketOptions(c, "R23")
 	checkWriteChunkCountsOnlyAcknowledged(c, "R24")
+	checkAtMethodsUseTheirOffset(c, "R25")
 	// R12: the count equals the bytes moved — not when the chunk offsets wrapped (shared with C12.R10)
 	c.withRule("R12", func() { checkChunkOffsetsCannotWrap(c, "R10") })
 	checkAppendStartsAtEnd(c, "R13")
